@@ -1,306 +1,164 @@
-import SaModel.Lemmas.C01NewShape
+import SaModel.Props.C03
 /-
-C01 — serialized arrays decode to exactly the input records.
+C01 — serialized arrays decode to exactly the input records: the END-TO-END statement.
 
-The refinement ("work-horse") theorems about the builder model.  `dec b` are the logical rows a builder state
-holds, `WFB` the state invariant between two pushes (Build/Inv.lean).
+  C01_build_decode   toMarrow ext fields rows = ok arrs → one array per field, every array of `rows.length` slots, and
+                     slot `i` of the arrays (read by the Arrow rules `Spec.decodeAll`) is, column by column, the
+                     documented value `Spec.interpRow` of record `i`.
 
-  R1  push_appends      every successful push keeps the state well formed and appends exactly ONE logical row
-      pushNone_appends / pushDefault_appends / pushScalar_appends   the same for nulls, placeholders, scalar calls
-      newDT_fresh / newRoot_fresh   a fresh builder is well formed and empty
-      runRows_rows      folding R1 over the rows: the root holds exactly `rows.length` rows, all columns at that length
-  R2  push_interp       the appended row is the documented one: `Spec.interpDT` of the value at the builder's field
-      newDT_shape / newRoot_shape   `build_builder` establishes the `Shape` relation R2 is indexed by
-  R3  runRows_interp    after all rows: the root's rows are `interpRow` of the records, all columns at `rows.length`
-      (coverage of R2/R3: every builder family except view types and dictionaries; values without raw
-      key/value call streams — notes/C01.md)
-
-Proofs live in SaModel/Lemmas/C01*.lean (list lemmas, per-family step lemmas, the mutual recursion over the
-serde value); this file states the property-level theorems and gives non-vacuity examples.
+Composition of
+  * the refinement theorems of Props/C01Refine.lean (same namespace `SaModel.Props.C01`): R1 `push_appends`,
+    R2 `push_interp`, R3 `runRows_interp` — "the final builder state holds exactly `interpRow` of the records";
+  * the physical layer of Props/C03.lean: `finish_decode` — "the finished arrays mean what the state holds".
+Hypotheses and exclusions: see the theorem and notes/C01.md.
 -/
 namespace SaModel.Props.C01
 open SaModel SaModel.Build SaModel.Spec
 
-/-! ## R1 -/
+/-- **C01 for `to_marrow`** (physical and logical halves composed).  Whenever serializing `rows` against `fields`
+succeeds, the returned arrays decode (Arrow reading rules, slot by slot, through the packed bitmaps, offsets, view
+descriptors, dictionary keys, union type ids) to columns `cols` — one per field, named after it, of `rows.length` slots
+each — and the documented value (`Spec.interpRow`: records matched by field name, numbers by value, variants by index …)
+of the `i`-th input record is exactly the struct whose `j`-th field is slot `i` of column `j`.
 
-/-- **R1.** Every successful `push` (any serde value, any builder family, any nesting) keeps the builder state
-well formed and appends exactly one logical row.  `Safe b` is a property of the schema (no dictionary with
-non-nullable keys below a nullable struct / fixed-size list — see `dict_placeholder_unstable` for why it is
-needed), `rawOK x` says that raw key/value call streams inside `x` alternate (vacuous without `mapRaw`). -/
-theorem push_appends (ext : Ext) (x : SVal) (b b' : B) (hraw : rawOK x = true) (hwf : WFB b) (hsafe : Safe b)
-    (h : push ext b x = .ok b') : WFB b' ∧ Safe b' ∧ ∃ lv, dec b' = dec b ++ [lv] := by
-  obtain ⟨a, d⟩ := Build.push_appends ext x b b' hraw hwf hsafe h
-  exact ⟨a, Safe.of_takeRest (push_takeRest ext x b b' h) hsafe, d⟩
+Covers every data type `build_builder` accepts, at any nesting — including Utf8View / BinaryView and
+`Dictionary(integer, Utf8 | LargeUtf8)` — and every presentation of a value.  Hypotheses, all explicit:
+  `hmap`     Map entries have exactly two children (finding `Props.C03.map_three_children_not_wf`)
+  `hschema`  no `FixedSizeBinary(0)` (known finding), dictionary keys of an integer type
+  `hcov`     `coveredF`: no dictionary whose VALUE type is not Utf8/LargeUtf8 (`build_builder` accepts any, e.g.
+             `Dictionary(Int8, Date32)`; R1 and the physical half cover those, the content statement R2 does not)
+  `hsafe`    `Safe` (schema: no dictionary with non-nullable keys below a nullable struct / fixed-size list, no
+             dictionary-keyed dictionary — `dict_placeholder_unstable`)
+  `hraw`     `noRaw`: no raw `serialize_key`/`serialize_value` call streams inside the records
+(No size hypothesis: the view builders refuse lengths and buffer offsets beyond `i32::MAX`, so a descriptor never
+truncates — `viewPushValue_ok`, `view_value_exact`, `WFB_small`.) -/
+theorem C01_build_decode (ext : Ext) (fields : List Field) (rows : List SVal) (arrs : List Arr)
+    (hmap : ∀ f ∈ fields, Lemmas.C03.Map2F f) (hschema : ∀ f ∈ fields, Lemmas.C03.SchemaOKF f)
+    (hcov : fields.all Build.coveredF = true)
+    (hsafe : ∀ root0, newRoot fields = .ok root0 → Safe root0)
+    (hraw : ∀ x ∈ rows, Build.noRaw x = true)
+    (h : toMarrow ext fields rows = .ok arrs) :
+    arrs.length = fields.length ∧
+    ∃ cols : List (String × List LVal),
+      arrs.map decodeAll = cols.map (fun c => c.2.map .ok) ∧
+      cols.map (·.1) = fields.map (·.name) ∧
+      (∀ c ∈ cols, c.2.length = rows.length) ∧
+      ∀ (i : Nat) (hi : i < rows.length),
+        interpRow ext fields rows[i] = .ok (.struct (LFields.ofList (cols.map fun c => (c.1, c.2.getD i .null)))) := by
+  suffices hcols : ∃ cols : List (String × List LVal),
+      arrs.map decodeAll = cols.map (fun c => c.2.map .ok) ∧
+      cols.map (·.1) = fields.map (·.name) ∧
+      (∀ c ∈ cols, c.2.length = rows.length) ∧
+      ∀ (i : Nat) (hi : i < rows.length),
+        interpRow ext fields rows[i] = .ok (.struct (LFields.ofList (cols.map fun c => (c.1, c.2.getD i .null)))) by
+    obtain ⟨cols, h1, h2, h3, h4⟩ := hcols
+    refine ⟨?_, cols, h1, h2, h3, h4⟩
+    have e1 := congrArg List.length h1
+    have e2 := congrArg List.length h2
+    simp only [List.length_map] at e1 e2
+    omega
 
-/-- a null appends exactly the null row -/
-theorem pushNone_appends (b b' : B) (hwf : WFB b) (hsafe : Safe b) (h : pushNone b = .ok b') :
-    WFB b' ∧ Safe b' ∧ dec b' = dec b ++ [.null] := by
-  obtain ⟨a, d⟩ := Build.pushNone_appends b b' hwf hsafe h
-  exact ⟨a, Safe.of_takeRest (pushNone_takeRest b b' h) hsafe, d⟩
-
-/-- `k` placeholders (children of a null struct / fixed-size list) append exactly `k` rows — null rows when the
-builder is nullable -/
-theorem pushDefault_appends (b : B) (k : Nat) (b' : B) (hwf : WFB b) (hsafe : DefSafe b)
-    (h : pushDefaultK b k = .ok b') :
-    WFB b' ∧ ∃ ls, ls.length = k ∧ dec b' = dec b ++ ls ∧ (b.isNullable = true → ls = List.replicate k .null) :=
-  Build.pushDefaultK_appends b k b' hwf hsafe h
-
-/-- the children of a null struct receive exactly one placeholder each -/
-theorem pushDefault_children (fs : BL) (k : Nat) (fs' : BL) (len : Nat) (hwf : WFL fs len) (hsafe : DefSafeL fs)
-    (h : pushDefaultKAll fs k = .ok fs') : WFL fs' (len + k) := by
-  obtain ⟨adds, hext, hk⟩ := Build.pushDefaultKAll_appends fs k fs' len hwf hsafe h
-  exact ExtL.wfl fs fs' adds len k hwf hext hk
-
-/-- scalar calls (`serialize_bool` … `serialize_bytes`) -/
-theorem pushScalar_appends (ext : Ext) (b : B) (x : SVal) (b' : B) (hwf : WFB b) (hsafe : Safe b)
-    (h : pushScalar ext b x = .ok b') :
-    WFB b' ∧ ∃ lv, dec b' = dec b ++ [lv] := by
-  obtain ⟨a, lv, d, _⟩ := Build.pushScalar_appends ext b x b' hwf hsafe h
-  exact ⟨a, lv, d⟩
-
-/-- **Leaf step with content.** A successful scalar push into a leaf builder appends the converted value
-(validity and value move in lock step). -/
-theorem push_leaf_dec (ext : Ext) (p : String) (k : LeafKind) (v : Validity) (vals : List Int) (x : SVal) (b' : B)
-    (hwf : VLen v vals.length) (h : pushScalar ext (.leaf p k v vals) x = .ok b') :
-    ∃ val, convLeaf ext k x = .ok val ∧ dec b' = dec (.leaf p k v vals) ++ [leafVal k val] ∧
-      ∃ v', b' = .leaf p k v' (vals ++ [val]) ∧ VLen v' (vals ++ [val]).length := by
-  simp only [pushScalar] at h
-  obtain ⟨val, hc, h2⟩ := (bind_ok _ _ _).1 h
-  obtain ⟨v', h3, h4⟩ := (bind_ok _ _ _).1 h2
-  cases h4
-  obtain ⟨rfl, _⟩ := setValidity_ok hwf h3
-  have hw : WFB (.leaf p k v vals) := by simpa [WFB] using hwf
-  obtain ⟨g1, g2⟩ := leaf_step hw true val
-  rw [rowOf_true] at g2
-  exact ⟨val, hc, g2, _, rfl, by simpa [WFB] using g1⟩
-
-/-- the list element loop raises the open (last) offset by the number of elements and appends that many rows to
-the element builder -/
-theorem pushElems_spec (ext : Ext) (xs : SVals) (hraw : rawOKs xs = true) (large : Bool) (el : B) (base : List Int)
-    (l : Int) (r : B × List Int) (hwf : WFB el) (hsafe : Safe el)
-    (h : pushElems ext large el (base ++ [l]) xs = .ok r) :
-    WFB r.1 ∧ ∃ ls, dec r.1 = dec el ++ ls ∧ r.2 = base ++ [l + (ls.length : Int)] :=
-  Build.pushElems_appends ext xs hraw large el base l r hwf hsafe h
-
-/-- map entries keep keys and values in step -/
-theorem pushMapEntries_spec (ext : Ext) (es : SEntries) (hraw : rawOKe es = true) (base : List Int) (l : Int)
-    (ks vs : B) (r : List Int × B × B) (hk : WFB ks) (hv : WFB vs) (hsk : Safe ks) (hsv : Safe vs)
-    (h : pushMapEntries ext (base ++ [l]) ks vs es = .ok r) :
-    WFB r.2.1 ∧ WFB r.2.2 ∧ ∃ lk lw : List LVal, lw.length = lk.length ∧ dec r.2.1 = dec ks ++ lk ∧
-      dec r.2.2 = dec vs ++ lw ∧ r.1 = base ++ [l + (lk.length : Int)] :=
-  Build.pushMapEntries_appends ext es hraw base l ks vs r hk hv hsk hsv h
-
-/-- a fresh builder is well formed, empty, and what `take` leaves behind is the builder itself -/
-theorem newDT_fresh (dt : DataType) (path : String) (nullable : Bool) (md : Metadata) (b : B)
-    (h : newDT path dt nullable md = .ok b) : WFB b ∧ dec b = [] ∧ takeRest b = b :=
-  Build.newDT_fresh dt path nullable md b h
-
-/-! ### folding over the rows -/
-
-theorem foldl_push_rows (ext : Ext) : ∀ (rows : List SVal) (b b' : B), (∀ x ∈ rows, rawOK x = true) → WFB b → Safe b →
-    rows.foldlM (push ext) b = .ok b' →
-    WFB b' ∧ Safe b' ∧ takeRest b' = takeRest b ∧ ∃ ls, ls.length = rows.length ∧ dec b' = dec b ++ ls
-  | [], b, b', _, hwf, hs, h => by
-    simp [List.foldlM, pure, Except.pure] at h; subst h
-    exact ⟨hwf, hs, rfl, [], rfl, by simp⟩
-  | x :: rest, b, b', hraw, hwf, hs, h => by
-    simp only [List.foldlM] at h
-    obtain ⟨b1, h1, h⟩ := (bind_ok _ _ _).1 h
-    obtain ⟨hw1, hs1, lv, hd1⟩ := push_appends ext x b b1 (hraw x (by simp)) hwf hs h1
-    obtain ⟨hw', hs', ht', ls, hl, hd⟩ := foldl_push_rows ext rest b1 b' (fun y hy => hraw y (by simp [hy])) hw1 hs1 h
-    exact ⟨hw', hs', by rw [ht', push_takeRest ext x b b1 h1], lv :: ls, by simp [hl], by rw [hd, hd1]; simp⟩
-
-/-- **R3 (row count).** After all rows have been pushed the root holds exactly `rows.length` rows and every
-column has that length. -/
-theorem runRows_rows (ext : Ext) (fields : List Field) (rows : List SVal) (root0 root : B)
-    (h0 : newRoot fields = .ok root0) (hsafe : Safe root0) (hraw : ∀ x ∈ rows, rawOK x = true)
-    (h : runRows ext fields rows = .ok root) :
-    WFB root ∧ (dec root).length = rows.length ∧ takeRest root = root0 ∧
-      ∀ col ∈ decRoot root, col.length = rows.length := by
-  simp only [runRows, h0] at h
-  have h : rows.foldlM (push ext) root0 = .ok root := h
-  obtain ⟨hw0, hd0, ht0⟩ := newRoot_fresh h0
-  obtain ⟨hw, _, ht, ls, hl, hd⟩ := foldl_push_rows ext rows root0 root hraw hw0 hsafe h
-  refine ⟨hw, by rw [hd, hd0]; simpa using hl, by rw [ht, ht0], ?_⟩
-  -- the root is a non-nullable struct: its row count is `len`, and all children are at `len`
-  have hroot : ∃ p len fs cached next seen, root = .struct p len none fs cached next seen := by
-    have : takeRest root = root0 := by rw [ht, ht0]
-    simp only [newRoot] at h0
-    obtain ⟨bl, _, h0⟩ := (bind_ok _ _ _).1 h0
-    unfold mkStruct at h0
-    split at h0
-    · simp [fail] at h0
-    · cases h0
-      exact struct_of_takeRest root this
-  obtain ⟨p, len, fs, cached, next, seen, rfl⟩ := hroot
-  have hlen : len = rows.length := by
-    have : (dec (B.struct p len none fs cached next seen)).length = rows.length := by rw [hd, hd0]; simpa using hl
-    simpa [dec_struct, maskNull] using this
-  simp only [WFB] at hw
-  intro col hcol
-  simp only [decRoot, List.mem_map] at hcol
-  obtain ⟨c, hc, rfl⟩ := hcol
-  rw [← hlen]
-  exact (WFL_cols fs len hw.2.1) c hc
+  obtain ⟨root, hrun, rest, hba⟩ := Props.C03.toMarrow_split ext fields rows arrs h
+  have h0 : ∃ root0, newRoot fields = .ok root0 := by
+    simp only [runRows] at hrun
+    cases hr : newRoot fields with
+    | error e => rw [hr] at hrun; cases hrun
+    | ok r0 => exact ⟨r0, rfl⟩
+  obtain ⟨root0, h0⟩ := h0
+  have hs0 := hsafe root0 h0
+  obtain ⟨hw, _, _, _⟩ := runRows_rows ext fields rows root0 root h0 hs0
+    (fun x hx => Build.noRaw_rawOK x (hraw x hx)) hrun
+  obtain ⟨hall, hcols, p, fs, cached, next, seen, rfl, hdec⟩ :=
+    runRows_interp ext fields rows root0 root hcov h0 hs0 hraw hrun
+  have hfacts := Props.C03.root_facts ext fields rows _ hmap hschema (Build.push_takeRest ext) hw
+    (Lemmas.C03.WFB_StrictDict _ hw) hrun
+  simp only [buildArrays, bind, Except.bind] at hba
+  cases hfin : finishFields ext fs with
+  | error e => rw [hfin] at hba; cases hba
+  | ok afs =>
+    rw [hfin] at hba
+    simp only [pure, Except.pure, Except.ok.injEq, Prod.mk.injEq] at hba
+    obtain ⟨rfl, _⟩ := hba
+    have hd := Lemmas.C03.finishFields_decode ext fs afs
+      (Lemmas.C03.WFL_WFBs fs _ (Lemmas.C03.WFB_struct hw).2) (Lemmas.C03.Faithful_struct hfacts.2.1) hfin
+    refine ⟨decCols fs, ?_, ?_, ?_, ?_⟩
+    · rw [List.map_map]
+      have := Props.C03.ArrFields_toList_decode afs
+      have e : (decodeAll ∘ fun (x : FieldMeta × Arr) => x.snd) = fun ma => decodeAll ma.snd := rfl
+      rw [e, this, hd, List.map_map]
+      rfl
+    · -- names: from `BuiltFor`
+      have hb := hfacts.1
+      simp only [Lemmas.C03.BuiltFor] at hb
+      obtain ⟨fields', hfe, _, hbl⟩ := hb
+      simp only [DataType.struct.injEq] at hfe
+      subst hfe
+      exact decCols_names fs _ hbl
+    · intro c hc
+      exact hcols c.2 (by simp only [decRoot, List.mem_map]; exact ⟨c, hc, rfl⟩)
+    · intro i hi
+      obtain ⟨hl, hg⟩ := Props.C03.All2_get hall
+      have h1 : i < (dec (B.struct p rows.length none fs cached next seen)).length := by rw [hl]; exact hi
+      have := hg i h1 hi
+      rw [this]
+      congr 1
+      simp only [hdec, List.getElem_map, List.getElem_range, Build.rowAt]
 where
-  struct_of_takeRest : ∀ (root : B) {p : String} {bl : BL} {c : List (Option (String × Nat))} {s : List Bool},
-      takeRest root = .struct p 0 (newValidity false) bl c 0 s →
-      ∃ p len fs cached next seen, root = .struct p len none fs cached next seen
-    | .struct p len none fs cached next seen, _, _, _, _, _ => ⟨_, _, _, _, _, _, rfl⟩
-    | .struct p len (some _) fs cached next seen, _, _, _, _, h => by simp [takeRest, newValidity] at h
-    | .null _ _, _, _, _, _, h => by simp [takeRest] at h
-    | .unknownVariant _, _, _, _, _, h => by simp [takeRest] at h
-    | .leaf _ _ _ _, _, _, _, _, h => by simp [takeRest] at h
-    | .bytes _ _ _ _ _, _, _, _, _, h => by simp [takeRest] at h
-    | .bytesView _ _ _ _ _, _, _, _, _, h => by simp [takeRest] at h
-    | .fixedSizeBinary _ _ _ _ _ _, _, _, _, _, h => by simp [takeRest] at h
-    | .list _ _ _ _ _ _, _, _, _, _, h => by simp [takeRest] at h
-    | .fixedSizeList _ _ _ _ _ _ _, _, _, _, _, h => by simp [takeRest] at h
-    | .map _ _ _ _ _ _, _, _, _, _, h => by simp [takeRest] at h
-    | .dictionary _ _ _ _, _, _, _, _, h => by simp [takeRest] at h
-    | .union _ _ _ _ _, _, _, _, _, h => by simp [takeRest] at h
-  WFL_cols : ∀ (fs : BL) (len : Nat), WFL fs len → ∀ c ∈ decCols fs, c.2.length = len
-    | .nil, _, _ => by simp [decCols]
-    | .cons b m r, len, h => by
-      simp only [WFL] at h
-      intro c hc
-      simp only [decCols, List.mem_cons] at hc
-      rcases hc with rfl | hc
-      · exact h.2.1
-      · exact WFL_cols r len h.2.2 c hc
+  decCols_names : ∀ (fs : BL) (fl : List Field), Lemmas.C03.BuiltForL (Fields.ofList fl) fs →
+      (decCols fs).map (·.1) = fl.map (·.name)
+    | .nil, [], _ => rfl
+    | .nil, _ :: _, h => by simp [Fields.ofList, Lemmas.C03.BuiltForL] at h
+    | .cons _ _ _, [], h => by simp [Fields.ofList, Lemmas.C03.BuiltForL] at h
+    | .cons b m r, f :: fr, h => by
+      simp only [Fields.ofList, Lemmas.C03.BuiltForL] at h
+      obtain ⟨rfl, _, hr⟩ := h
+      simp only [decCols, List.map_cons, decCols_names r fr hr]
+      cases f; rfl
 
-/-! ## R2 -/
+/-! ### a worked instance: every hypothesis of `C01_build_decode` discharged on a real run
 
-/-- **R2.** The row a successful push appends is the documented one: `Spec.interpDT` at the field the builder was
-built for (records matched by name, numbers by value, variants by index) — for every builder family `Shape`
-covers and every value without raw key/value call streams.  Together with R1: C01 (content), C05 (ok ⇒ exact) and
-C11 (the row depends on the value only through `interpDT`). -/
-theorem push_interp (ext : Ext) (x : SVal) (b b' : B) (dt : DataType) (n : Bool) (md : Metadata)
-    (hraw : noRaw x = true) (hwf : WFB b) (hsafe : Safe b) (hshape : Shape b dt n md) (h : push ext b x = .ok b') :
-    WFB b' ∧ Safe b' ∧ Shape b' dt n md ∧ ∃ lv, dec b' = dec b ++ [lv] ∧ interpDT ext dt n md x = .ok lv := by
-  have ht := push_takeRest ext x b b' h
-  obtain ⟨hw', lv, hd⟩ := Build.push_appends ext x b b' (noRaw_rawOK x hraw) hwf hsafe h
-  exact ⟨hw', Safe.of_takeRest ht hsafe, Shape.of_takeRest ht hshape, lv, hd,
-    Build.push_interp ext x b b' dt n md lv hraw hwf hsafe hshape h hd⟩
+Schema `{v: Utf8View?, d: Dictionary(UInt8, Utf8)}`, two records: the first with a 28-byte string (stored out of line:
+descriptor + buffer) and the dictionary value "x", the second without `v` (null) and the same dictionary value (the
+key 0 is reused). -/
 
-/-- `build_builder` establishes `Shape` for every covered data type -/
-theorem newDT_shape (dt : DataType) (path : String) (n : Bool) (md : Metadata) (b : B) (hc : covered dt = true)
-    (h : newDT path dt n md = .ok b) : Shape b dt n md :=
-  Build.newDT_shape dt path n md b hc h
+def exFields : List Field := [.mk "v" .utf8View true [], .mk "d" (.dictionary .uint8 .utf8) false []]
+def exRows : List SVal :=
+  [.record "R" (.cons "v" 0 (.str "a string of 27 bytes, extern") (.cons "d" 1 (.str "x") .nil)),
+   .record "R" (.cons "d" 1 (.str "x") .nil)]
+def exRoot : B :=
+  .struct "$" 2 none
+    (.cons (.bytesView "$.v" .utf8View (some [true, false]) [8391086131705282588, 0]
+        [97, 32, 115, 116, 114, 105, 110, 103, 32, 111, 102, 32, 50, 55, 32, 98, 121, 116, 101, 115, 44, 32, 101, 120,
+         116, 101, 114, 110]) ⟨"v", true, []⟩
+      (.cons (.dictionary "$.d" (.leaf "$.d.key" (.int .u8) none [0, 0]) (.bytes "$.d.value" .utf8 none [0, 1] [120]) ["x"])
+        ⟨"d", false, []⟩ .nil))
+    [some ("v", 0), some ("d", 1)] 2 [false, true]
 
-theorem foldl_push_interp (ext : Ext) (dt : DataType) (n : Bool) (md : Metadata) : ∀ (rows : List SVal) (b b' : B),
-    (∀ x ∈ rows, noRaw x = true) → WFB b → Safe b → Shape b dt n md → rows.foldlM (push ext) b = .ok b' →
-    ∃ ls, dec b' = dec b ++ ls ∧ All2 (fun lv x => interpDT ext dt n md x = .ok lv) ls rows
-  | [], b, b', _, _, _, _, h => by
-    simp [List.foldlM, pure, Except.pure] at h; subst h
-    exact ⟨[], by simp, .nil⟩
-  | x :: rest, b, b', hraw, hwf, hs, hsh, h => by
-    simp only [List.foldlM] at h
-    obtain ⟨b1, h1, h⟩ := (bind_ok _ _ _).1 h
-    obtain ⟨hw1, hs1, hsh1, lv, hd1, hi⟩ := push_interp ext x b b1 dt n md (hraw x (by simp)) hwf hs hsh h1
-    obtain ⟨ls, hd, hall⟩ := foldl_push_interp ext dt n md rest b1 b' (fun y hy => hraw y (by simp [hy])) hw1 hs1 hsh1 h
-    exact ⟨lv :: ls, by rw [hd, hd1]; simp, .cons hi hall⟩
+theorem exRun : runRows {} exFields exRows = .ok exRoot := by decide +kernel
 
-/-- **R3.** `runRows` (all records pushed into a fresh root): the rows the root holds are exactly the documented
-rows `interpRow` of the records, in order; the root is a struct of `rows.length` rows without validity, so row `i`
-is the struct of the `i`-th entries of the columns, and every column has length `rows.length`. -/
-theorem runRows_interp (ext : Ext) (fields : List Field) (rows : List SVal) (root0 root : B)
-    (hc : fields.all coveredF = true) (h0 : newRoot fields = .ok root0) (hsafe : Safe root0)
-    (hraw : ∀ x ∈ rows, noRaw x = true) (h : runRows ext fields rows = .ok root) :
-    All2 (fun lv x => interpRow ext fields x = .ok lv) (dec root) rows ∧
-    (∀ col ∈ decRoot root, col.length = rows.length) ∧
-    ∃ p fs cached next seen, root = .struct p rows.length none fs cached next seen ∧
-      dec root = (List.range rows.length).map (rowAt (decCols fs)) := by
-  have hrows := runRows_rows ext fields rows root0 root h0 hsafe (fun x hx => noRaw_rawOK x (hraw x hx)) h
-  have h' := h
-  simp only [runRows, h0] at h'
-  have h' : rows.foldlM (push ext) root0 = .ok root := h'
-  obtain ⟨hw0, hd0, ht0⟩ := newRoot_fresh h0
-  obtain ⟨ls, hd, hall⟩ := foldl_push_interp ext _ _ _ rows root0 root hraw hw0 hsafe (newRoot_shape hc h0) h'
-  rw [hd0, List.nil_append] at hd
-  refine ⟨by rw [hd]; exact hall, hrows.2.2.2, ?_⟩
-  obtain ⟨p, bl, c, s, hr0⟩ := newRoot_struct h0
-  obtain ⟨p', len, fs, cached, next, seen, rfl⟩ := runRows_rows.struct_of_takeRest root (hrows.2.2.1.trans hr0)
-  have hlen : len = rows.length := by
-    have := hrows.2.1
-    simpa [dec_struct, maskNull] using this
-  subst hlen
-  exact ⟨_, _, _, _, _, rfl, by rw [dec_struct]; rfl⟩
-where
-  newRoot_struct {fields : List Field} {r0 : B} (h : newRoot fields = .ok r0) :
-      ∃ p bl c s, r0 = .struct p 0 (newValidity false) bl c 0 s := by
-    simp only [newRoot] at h
-    obtain ⟨bl, _, h⟩ := (bind_ok _ _ _).1 h
-    unfold mkStruct at h
-    split at h
-    · simp [fail] at h
-    · cases h; exact ⟨_, _, _, _, rfl⟩
+/-- serialization succeeds … -/
+theorem exOk : (toMarrow {} exFields exRows).isOk = true := by decide +kernel
 
-/-! ### why `Safe` is needed: placeholder keys of an empty dictionary -/
+/-- … and the theorem applies with every hypothesis discharged -/
+example : ∀ arrs, toMarrow {} exFields exRows = .ok arrs → arrs.length = exFields.length ∧
+    ∃ cols : List (String × List LVal), arrs.map decodeAll = cols.map (fun c => c.2.map .ok) ∧
+      cols.map (·.1) = exFields.map (·.name) ∧ (∀ c ∈ cols, c.2.length = exRows.length) ∧
+      ∀ (i : Nat) (hi : i < exRows.length), interpRow {} exFields exRows[i] =
+        .ok (.struct (LFields.ofList (cols.map fun c => (c.1, c.2.getD i .null)))) := by
+  intro arrs h
+  refine C01_build_decode {} exFields exRows arrs ?_ ?_ (by decide) ?_ (by decide) h
+  · simp [exFields, Lemmas.C03.Map2F, Lemmas.C03.Map2]
+  · simp [exFields, Lemmas.C03.SchemaOKF, Lemmas.C03.SchemaOK, Lemmas.C03.isIntDT]
+  · intro root0 h0
+    rw [show newRoot exFields = .ok (.struct "$" 0 none
+      (.cons (.bytesView "$.v" .utf8View (some []) [] []) ⟨"v", true, []⟩
+        (.cons (.dictionary "$.d" (.leaf "$.d.key" (.int .u8) none []) (.bytes "$.d.value" .utf8 none [0] []) [])
+          ⟨"d", false, []⟩ .nil)) [none, none] 0 [false, false]) from by decide] at h0
+    cases h0
+    simp [Safe, SafeL, B.isDict]
 
-/-- A dictionary with NON-nullable keys below a nullable struct: a null struct row pushes the placeholder key `0`
-into the (still empty) dictionary; the key designates nothing, then — after the first real value — that value.
-So the rows of the dictionary builder itself are not append-only (`[null]` becomes `["a", "a"]`); the struct's
-rows are (the slot is hidden below the null).  R1 for the child alone is false in this state. -/
-theorem dict_placeholder_unstable :
-    ∃ (d d' : B) (x : SVal), WFB d' ∧ push {} d x = .ok d' ∧ ¬ ∃ lv, dec d' = dec d ++ [lv] := by
-  refine ⟨.dictionary "$.s.d" (.leaf "$.s.d.key" (.int .u32) none [0]) (.bytes "$.s.d.value" .utf8 none [0] []) [],
-    .dictionary "$.s.d" (.leaf "$.s.d.key" (.int .u32) none [0, 0]) (.bytes "$.s.d.value" .utf8 none [0, 1] [97]) ["a"],
-    .str "a", ?_, by decide +kernel, ?_⟩
-  · simp only [WFB]
-    refine ⟨VLen.none _, ⟨⟨rfl, rfl, by decide⟩, VLen.none _⟩, by decide, by decide, ?_⟩
-    intro k hk j hj
-    have : dec (B.leaf "$.s.d.key" (.int .u32) none [0, 0]) = [.int 0, .int 0] := by decide
-    rw [this] at hk
-    simp at hk; subst hk; cases hj; decide
-  · rintro ⟨lv, h⟩
-    have h1 : dec (B.dictionary "$.s.d" (.leaf "$.s.d.key" (.int .u32) none [0, 0])
-        (.bytes "$.s.d.value" .utf8 none [0, 1] [97]) ["a"]) = [.str [97], .str [97]] := by decide
-    have h2 : dec (B.dictionary "$.s.d" (.leaf "$.s.d.key" (.int .u32) none [0])
-        (.bytes "$.s.d.value" .utf8 none [0] []) []) = [.null] := by decide
-    rw [h1, h2] at h
-    simp at h
-
-/-! ### non-vacuity -/
-
-example : ∃ b', pushScalar {} (.leaf "$.a" (.int .i32) (some [true]) [4]) (.int .i64 7) = .ok b' ∧
-    dec b' = [.int 4, .int 7] := ⟨_, rfl, by decide⟩
-
-/-- a nested state meeting every hypothesis of R1: nullable list of non-nullable i32 with one row `[4]` -/
-def exList : B := .list "$.a" false ⟨"element", false, []⟩ (some [true]) [0, 1] (.leaf "$.a.element" (.int .i32) none [4])
-
-example : WFB exList ∧ Safe exList := by
-  refine ⟨?_, by simp [exList, Safe]⟩
-  simp only [exList, WFB]
-  refine ⟨⟨rfl, by decide, by decide⟩, ?_, VLen.none _⟩
-  intro bits hb; cases hb; rfl
-
-example : ∃ b', push {} exList (.seq (.cons (.int .i8 5) (.cons (.int .i64 6) .nil))) = .ok b' ∧
-    dec b' = dec exList ++ [.list (.cons (.int 5) (.cons (.int 6) .nil))] := ⟨_, rfl, by decide⟩
-
-/-- a root over two columns; the second record presents its fields in the other order -/
-example : (do
-      let root ← runRows {} [.mk "a" .int32 false [], .mk "b" .utf8 true []]
-        [.record "R" (.cons "a" 0 (.int .i32 1) (.cons "b" 1 (.str "x") .nil)),
-         .record "R" (.cons "b" 1 .none (.cons "a" 0 (.int .i32 2) .nil))]
-      pure (decRoot root) : R (List (List LVal))) = .ok [[.int 1, .int 2], [.str [120], .null]] := by decide +kernel
-
-/-- R2 on a nested state: the Shape of `exList`, and the documented row of a sequence -/
-example : Shape exList (.list (.mk "element" .int32 false [])) true [] := by
-  simp only [exList, Shape]
-  exact ⟨rfl, "element", .int32, false, [], by simp, rfl, rfl⟩
-
-example : interpDT {} (.list (.mk "element" .int32 false [])) true []
-    (.seq (.cons (.int .i8 5) (.cons (.int .i64 6) .nil))) = .ok (.list (.cons (.int 5) (.cons (.int 6) .nil))) := by
-  decide +kernel
-
-/-- R3 hypotheses are satisfiable with a nested, nullable schema: covered, safe, and rows in two presentations -/
-example : [Field.mk "a" (.struct (.cons (.mk "x" .int8 true []) (.cons (.mk "y" .utf8 false []) .nil))) true []].all coveredF = true := by
-  decide
-
-example : interpRow {} [.mk "a" .int32 false [], .mk "b" .utf8 true []]
-      (.record "R" (.cons "b" 1 .none (.cons "a" 0 (.int .i32 2) .nil))) =
-    interpRow {} [.mk "a" .int32 false [], .mk "b" .utf8 true []]
-      (.map (.cons (.str "a") (.int .i64 2) .nil)) := by decide +kernel
+/-- what the two columns of the instance decode to: the long string and a null; "x" twice through the key 0 -/
+example : decRoot exRoot =
+    [[.str (strBytes "a string of 27 bytes, extern"), .null], [.str [120], .str [120]]] := by decide +kernel
 
 end SaModel.Props.C01
